@@ -1523,9 +1523,22 @@ class Generator:
                     a = side_ref(pt_, t_, side)
                     thr = self.threshold(pt_, t_)
                     if a is not None and thr is not None:
-                        op = "==" if how == "full" else rng.choice([">=", "<", "==", "!="])
-                        on.append({"p": "cmp", "op": op, "a": a, "thr": thr})
+                        op = "==" if how == "full" else rng.choice([">=", "<", "==", "!=", "==self"])
+                        pr = {"p": "cmp", "op": op, "a": a, "thr": thr}
+                        if op == "==" and rng.random() < 0.4:
+                            pr["lf"] = True  # lit(thr) == col
+                        on.append(pr)
                         m.note("join_onesided_predicate:" + how)
+                        if how != "full" and rng.random() < 0.3:
+                            # the one-sided predicate is the whole condition
+                            on = [pr]
+                            m.note("join_on_without_equality:" + how)
+            if how != "full" and not cross and rng.random() < self.p.get("p_case_on", 0.08):
+                # a conjunct that is no comparison at all (a boolean case expression)
+                j = rng.randrange(len(on))
+                if not isinstance(on[j], str):
+                    on[j] = dict(on[j], wrap="case")
+                    m.note("join_on_case_predicate:" + how)
         suffix = None
         if rng.random() < self.p.get("p_user_suffix", 0.15):
             suffix = rng.choice(["_s", "_r", "_B"])
